@@ -55,7 +55,7 @@ def run_one(program, faults=(), observe=None, limits=None):
     ctx.end_time = ctx.trace[-1][1] if ctx.trace else program.get('start', 0)
     if ctx.runaway is None and ctx.outcome is None:
         for loop in ctx.loops:
-            for key, entries in loop.queued.items():
+            for key, entries in list(loop.queued.items()) + [('now', loop.cur or [])]:
                 left = [(ctx.name_of(t), type(s).__name__) for t, s in entries
                         if s is None or not s._revoked]
                 if left:
